@@ -8,6 +8,7 @@ import Hdl21Model.Lemmas.Slice
 import Hdl21Model.Lemmas.Conn
 import Hdl21Model.Lemmas.Resolve
 import Hdl21Model.Lemmas.Export
+import Hdl21Model.Lemmas.ResolveTotal
 namespace Hdl21.Props.C03
 open Hdl21
 
@@ -281,6 +282,30 @@ theorem exported_bits_in_range (n : String) (w : Nat) (idx : Index) (t : Pkg.PTa
       have hp := wf.pos (by omega)
       rw [hs1] at hp
       exact ⟨_, _, h.symm, by omega, by omega⟩
+
+/-! ### The resolver always answers -/
+
+/-- **Every connectable that denotes something is resolved** — for every nesting depth, width, step and sign: if the expression has
+    a denotation (every index in range, every slice non-empty, at every level) and holds no empty concatenation, `SliceResolver`,
+    given the fuel `needR c` (a number computed from the expression; any larger one will do), returns — and what it returns denotes
+    the same bits and is made of signals and signal-level slices only.  The fuel argument of the model is discharged: `needR c`
+    bounds the depth of the Python recursion, so the theorems above are not about an event that never happens. -/
+theorem resolve_total (c : SConn) (bs : List Bit) (hd : c.denote = .ok bs) (hne : c.noEmpty = true) (fuel : Nat) (hf : needR c ≤ fuel) :
+    ∃ r, resolveSliceable fuel c = .ok r ∧ r.denote = .ok bs ∧ r.exportable = true := by
+  obtain ⟨r, hr⟩ := (resolve_total_aux fuel).2.2.1 c bs hd hne hf
+  exact ⟨r, hr, resolve_preserves_bits fuel c r bs hr hd, resolve_flat fuel c r hr⟩
+
+/-- … in terms of what the passes look at: whatever has a width is resolved, to something of that width -/
+theorem resolve_total_of_width (c : SConn) (w : Nat) (hw : c.width = .ok w) (hne : c.noEmpty = true) :
+    ∃ r, resolveSliceable (needR c) c = .ok r ∧ r.width = .ok w ∧ r.exportable = true := by
+  obtain ⟨bs, hd, hl⟩ := width_denote c w hw
+  obtain ⟨r, hr, hrd, hre⟩ := resolve_total c bs hd hne (needR c) (Nat.le_refl _)
+  exact ⟨r, hr, by rw [denote_width r bs hrd, hl], hre⟩
+
+/-- non-vacuity: a reversed, strided slice of a concatenation of a slice and a signal, resolved with exactly `needR` fuel -/
+example :
+    let c : SConn := .slice (.concat [.slice (.sig "a" 4) (.range (some 3) (some 0) (some (-1))), .sig "b" 3]) (.range none none (some (-2)))
+    c.noEmpty = true ∧ needR c = 18 ∧ (resolveSliceable (needR c) c).toOption.map SConn.exportable = some true := by decide +kernel
 
 /-! ### Non-vacuity -/
 example : sliceInner 4 (.range (some 1) none (some 2)) =
